@@ -69,7 +69,10 @@ def diagram_module():
 
 
 def reset_bookmarks(D):
-    D._bookmark_lookup.clear()
+    if hasattr(D, "_bookmark_lookup"):
+        D._bookmark_lookup.clear()
+    if hasattr(getattr(D, "_make_bookmark", None), "cache_clear"):
+        D._make_bookmark.cache_clear()
     D._bookmark_ids = itertools.count(start=1)
 
 
@@ -1096,6 +1099,9 @@ def search(ctx, reasons):
     violation here is reported with a per-input key unless it belongs to a class the pinned tree is known to exhibit
     AND the model (when it can be evaluated) predicts it."""
     rng = ctx.rng
+    many_names_oracle(ctx)
+    if any(v["found_input"] for v in ctx.violations):
+        return
     cases = []
     for lab, spec, root in enumerated_shapes():
         for o in option_tuples():
